@@ -228,6 +228,7 @@ fn gpu_reply(code: u32, rng: &mut Rng) -> (Vec<u8>, Value) {
 pub fn run(cases: &[Value], trace: &mut Trace, seed: u64) {
     for (k, case) in cases.iter().enumerate() {
         let mut rng = Rng::new(seed ^ (k as u64).wrapping_mul(0x0bad_cafe));
+        let watch = FdWatch::start();
         let (gsock, psock) = UnixStream::pair().unwrap();
         let g = GpuBackend::from_stream(gsock);
         trace.emit(json!({"ev": "reset", "id": case["id"]}));
@@ -349,5 +350,8 @@ pub fn run(cases: &[Value], trace: &mut Trace, seed: u64) {
                 break;
             }
         }
+        drop(g);
+        drop(psock);
+        trace.emit(watch.finish());
     }
 }
